@@ -54,7 +54,9 @@ def check(ctx, P, rule="shape-eval"):
             ctx.lost(rule, path, "impl not found")
             continue
         bad = []
-        for n in LENS:
+        from .. import shapeconst
+        extra, big = shapeconst.around(shapeconst.usize_consts(P, fn), hi=40)
+        for n in sorted(set(LENS) | extra):
             B = simd.TermBank()
             xs = [B.inp("x[%d]" % i, w) for i in range(n)]
             ys = [B.inp("y[%d]" % i, w) for i in range(n)]
@@ -90,7 +92,7 @@ def check(ctx, P, rule="shape-eval"):
         nok += ok
         ctx.check(ok, rule, path, "for lengths %s and symbolic contents the result is the word primitive of the OR-accumulated %s" % (list(LENS), "differences" if which in ("ct_eq", "ct_ne") else "elements"),
                   "%s is not the documented composition: %s" % (path, bad[:3]), where=fn.where(), key="%s:%s" % (rule, path))
-        if ok:
+        if ok and not big:
             ctx.subsume("cmp:%s" % path, "%s is decided for lengths %s by shape evaluation" % (path.split("::")[-1], list(LENS)))
             ctx.subsume("cmp-acc:%s" % path, "decided for lengths %s by shape evaluation" % (list(LENS),))
             ctx.subsume("cmp-coverage:%s" % path, "decided for lengths %s by shape evaluation" % (list(LENS),))
